@@ -185,7 +185,8 @@ def specs(tier):
         S.append(dict(name=f"shift/{k}", kind="xhair", func=f"shift_{k}", post="_ == 0", pct=400, task_timeout=700))
     S.append(dict(name="shift/twin#twin", kind="xhair", func="shift_twin", post="_ == 1", pct=120, twin=True, task_timeout=400))
     S.append(dict(name="digits", kind="digits"))
-    shifts = [0, 1, 8, 9, 10, 98, 99] if tier == "quick" else [0, 1, 8, 9, 10, 11, 98, 99, 100, 999]
+    # every residue modulo 8 (small-int sets and dicts iterate in hash order), both sides of the 9/10 and 99/100 boundaries
+    shifts = [0, 1, 2, 3, 4, 5, 6, 7, 8, 9, 10, 98, 99] if tier == "quick" else [0, 1, 2, 3, 4, 5, 6, 7, 8, 9, 10, 11, 15, 16, 31, 32, 98, 99, 100, 999]
     seeds = [0, 1, 2, 3] if tier == "quick" else list(range(8))
     S.append(dict(name="e2e", kind="e2e", shifts=shifts, seeds=seeds, task_timeout=900))
     return S
